@@ -5,6 +5,7 @@ R2 handler agreement: filesystem call, arguments, reply sites and refusals of ea
 R3 reply helper agreement (reply_ok / do_reply_error / handle_attr_result) and Arc<FS> async forwarding
 R4 VFS siblings: each async method of the VFS multiplexer performs the same gating, routing and id/inode translation steps as its sync sibling
 R5 passthrough delegation: each async method of PassthroughFs calls its own sync method with the same arguments
+R3 (cont.) the async reply helpers propagate the result of every write (shared with C01.R6)
 """
 import json
 import os
